@@ -350,6 +350,18 @@ def runVq2 (ws : List String) : String :=
   | ["backlog", k, n] => match n.toNat? with
     | some n => if n ≤ 100000 then runVqBacklog k n else "bad-case"
     | none => "bad-case"
+  | ["farfuture"] =>
+    -- a timer whose deadline is beyond anything the clock reaches is never expired (`never_early`): with a
+    -- 3-unit timer and a plain event next to it, three calls return exactly those two
+    let run (s : St Nat) (acts : List (Act Nat)) : Option (St Nat) := acts.foldlM (fun (s : St Nat) a => step s a) s
+    match run ({} : St Nat) [.sendTimer (2 ^ 64) 1000, .sendTimer 3 7, .send 5,
+        .call .recvTimeout 10, .readClock, .foldPick, .wake .plain,
+        .call .recvTimeout 10, .readClock, .foldPick, .tick 3, .wake .timer, .readClock, .foldPick,
+        .call .recvTimeout 10, .readClock, .foldPick, .tick 10, .wake .timeout] with
+    | some s' =>
+      let far := (s'.returned.filter fun (o : Out Nat × Nat) => (match o.1 with | Out.timer _ e => e == 1000 | _ => false)).length
+      s!"early={far}"
+    | none => "model: schedule not enabled"
   | ["latecancel", r] =>
     -- a timer of 10 units cancelled at time 9 (one unit before its deadline), then a receive that lasts well
     -- beyond it: whether the cancel is folded by ready_event or by a wake-up, the timer is never returned
